@@ -247,13 +247,20 @@ class sptensor:
 
         # Keep iterating until we find enough unique nonzeros or we give up
         subs = np.empty((0, len(shape)), dtype=int)
+        pool = subs
         cnt = 0
         while (len(subs) < nonzeros) and (cnt < 10):
             subs = (
                 np.random.uniform(size=[nonzeros, len(shape)]).dot(np.diag(shape))
             ).astype(int)
+            pool = np.vstack((pool, subs))
             subs = np.unique(subs, axis=0)
             cnt += 1
+        if len(subs) < nonzeros:
+            # no single draw had enough distinct rows: use the distinct rows of ALL
+            # draws, in order of first appearance, at most the requested number
+            _, first = np.unique(pool, axis=0, return_index=True)
+            subs = np.unique(pool[np.sort(first)[:nonzeros], :], axis=0)
 
         nonzeros = int(min(nonzeros, subs.shape[0]))
         subs = subs[0:nonzeros, :]
